@@ -6,7 +6,9 @@ Binding: G - every dump description TLC reaches is serialised by the frozen vend
 by the real process_minidump and compared field by field; equality is the property.
 spec/CrashReason.tla - the crash reason / crash address decision table (OS x CPU x exception code x flags x parameter count
 x parameter classes): every finished record becomes an exception stream, and the reason string and the address the real
-pipeline reports must be the ones the table prescribes."""
+pipeline reports must be the ones the table prescribes.
+spec/OsStrings.tla - the OS version / build strings (numeric version + CSD string, and the uname rule of Linux dumps whose numeric
+version is 0.0.0): every finished system-info description becomes a dump and system_info.os_version / os_build must be `Expected`."""
 import json
 from . import core
 
@@ -26,13 +28,20 @@ def run(ctx):
                  timeout=3000, out_name="crashreason")
     if cr.violated:
         raise core.ToolFailure("design-level invariant %s of CrashReason.tla is violated in the model" % cr.violated)
-    rep2 = ctx.read_harness_report(ctx.harness("replay_crashreason", [cr.out_path], out_name="replay_crashreason.out", timeout=3000))
+    osm = ctx.tlc("OsStrings", "MC_OsStrings_" + ctx.tier, coverage="separate",
+                  required_actions=["SetPlatform", "SetNumeric", "StartUname", "AddVersion", "AddBuildWord", "AddArch", "AddSuffix", "FreeText", "Pad", "Finish"],
+                  timeout=3000, out_name="osstrings")
+    if osm.violated:
+        raise core.ToolFailure("design-level invariant %s of OsStrings.tla is violated in the model" % osm.violated)
+    rep2 = ctx.read_harness_report(ctx.harness("replay_crashreason", [cr.out_path, osm.out_path], out_name="replay_crashreason.out", timeout=3000))
     for need in ("os:windows", "os:linux", "os:android", "os:mac", "os:ios", "os:other", "shape:av_kind", "shape:inpage_kind", "shape:fastfail", "shape:sig_kind",
-                 "shape:sig_sicode", "shape:sig_hex", "shape:mac_kind", "shape:mac_general", "shape:unknown", "shape:win_unknown", "os-strings"):
+                 "shape:sig_sicode", "shape:sig_hex", "shape:mac_kind", "shape:mac_general", "shape:unknown", "shape:win_unknown", "os-strings",
+                 "osmodel:uname:linux", "osmodel:stored:linux", "osmodel:stored:windows", "osmodel:stored:android", "osmodel:stored:mac",
+                 "osmodel:phase0", "osmodel:phase1", "osmodel:phase2", "osmodel:phase4", "osmodel:phase5", "osmodel:phase6", "osmodel:nbuild0", "osmodel:nbuild2"):
         if rep2["classes"].get(need, 0) == 0:
             raise core.ToolFailure("vacuous replay: CrashReason class %s never exercised" % need)
     cov = {
-        "states": mc.distinct + cr.distinct, "transitions": mc.generated + cr.generated,
+        "states": mc.distinct + cr.distinct + osm.distinct, "transitions": mc.generated + cr.generated + osm.generated,
         "traces_validated_against_impl": rep["evaluations"] + rep2["evaluations"],
         "samples": rep["samples"][:4], "exhaustive": True,
         "evaluations": rep["evaluations"], "distinct_nontrivial": rep["distinct_nontrivial"],
@@ -40,9 +49,11 @@ def run(ctx):
                 "loaded module / one / two unloaded modules / nowhere), an exception record (thread id present / absent / dump-writer; context absent / "
                 "unreadable / readable; code x parameter count x sign-extended addresses x access kind), Breakpad info (dump / requesting ids incl. invalid), "
                 "5 OS x CPU platforms, misc info with / without pid, /proc status; independent dimensions are varied separately (see Processor.tla)",
-        "tlc": {"Processor": mc.as_dict(), "CrashReason": cr.as_dict()}, "replay_classes": rep["classes"], "crashreason_classes": rep2["classes"],
+        "tlc": {"Processor": mc.as_dict(), "CrashReason": cr.as_dict(), "OsStrings": osm.as_dict()}, "replay_classes": rep["classes"], "crashreason_classes": rep2["classes"],
         "crashreason_rule": "every exception record reachable by choosing OS (6) x CPU (5) x code (11 Windows / 9 Linux / 8 Mac classes) x flags (9 values) x parameter count 0..3 x "
                             "access kind / fast-fail code (5) x NTSTATUS class (3) x sign-extended addresses",
+        "osstrings_rule": "every system-info stream reachable by choosing platform (4) x numeric version (0.0.0 / 5.4.3) x a CSD string built along the uname grammar "
+                          "'Linux [version] [build words incl. empty ones]* [arch] [Linux/GNU]' stopped after any complete position, or free text, with blank padding where the uname rule does not apply",
     }
     return ctx.finish("model_checking", cov, assumptions=[
         "the documented rules are those transcribed in Processor.tla and CrashReason.tla; number <-> name tables are frozen copies of the platform headers' constants (harness/src/bin/replay_crashreason.rs); EXC_RESOURCE / EXC_GUARD payload formatting is not judged",
